@@ -84,7 +84,7 @@ func (k pkConfig) String() string {
 }
 
 // pkSwitches are the design switches of PosixKey.
-type pkSwitches struct{ PublishAtomic, ReadThroughFd, AttrsBeforePublish bool }
+type pkSwitches struct{ PublishAtomic, ReadThroughFd, AttrsBeforePublish, ReadRestarts bool }
 
 // codeAsIs says which design the code in /repo currently implements. It is part
 // of the binding: if the code stops behaving like this model, the replayed
@@ -94,8 +94,12 @@ type pkSwitches struct{ PublishAtomic, ReadThroughFd, AttrsBeforePublish bool }
 //     (tmpfile.link no longer unlinks the object before linking the new file)
 //   - AttrsBeforePublish: TRUE since the fix "PutObject stores tags with the object
 //     before publishing it"
-var codeAsIs = pkSwitches{PublishAtomic: true, AttrsBeforePublish: true}
-var codeRepaired = pkSwitches{true, true, true}
+//   - ReadRestarts: TRUE since the fix "GET / HEAD start over when the object was
+//     replaced while its size and attributes were read" (the opened file is compared with
+//     the file stat'ed; with the xattr store that closes the torn reads, the sidecar
+//     store keeps attributes in files of their own and stays torn)
+var codeAsIs = pkSwitches{PublishAtomic: true, AttrsBeforePublish: true, ReadRestarts: true}
+var codeRepaired = pkSwitches{PublishAtomic: true, ReadThroughFd: true, AttrsBeforePublish: true}
 
 func pkCfgText(scn string, k pkConfig, initPresent bool, sw pkSwitches, emit, invariants, crash bool) string {
 	return pkCfgTextF(scn, k, initPresent, sw, emit, invariants, crash, false)
@@ -111,8 +115,8 @@ func pkCfgTextF(scn string, k pkConfig, initPresent bool, sw pkSwitches, emit, i
 	var sb strings.Builder
 	sb.WriteString("SPECIFICATION Spec\nCONSTANTS\n")
 	fmt.Fprintf(&sb, " Scenario = %q\n Strategy = %q\n Meta = %q\n InitPresent = %s\n", scn, k.Strategy, k.Meta, b(initPresent))
-	fmt.Fprintf(&sb, " PublishAtomic = %s\n ReadThroughFd = %s\n AttrsBeforePublish = %s\n Emit = %s\n WithCrash = %s\n",
-		b(sw.PublishAtomic), b(sw.ReadThroughFd), b(sw.AttrsBeforePublish), b(emit), b(crash))
+	fmt.Fprintf(&sb, " PublishAtomic = %s\n ReadThroughFd = %s\n ReadRestarts = %s\n AttrsBeforePublish = %s\n Emit = %s\n WithCrash = %s\n",
+		b(sw.PublishAtomic), b(sw.ReadThroughFd), b(sw.ReadRestarts), b(sw.AttrsBeforePublish), b(emit), b(crash))
 	fmt.Fprintf(&sb, " FineSteps = %s\n", b(fine))
 	if invariants {
 		sb.WriteString("INVARIANTS PNoTornRead PNoSpuriousMissing PLinearizable\nVIEW View\n")
